@@ -320,7 +320,9 @@ def make_sets(rng, n):
     """caption sets with 0 <= start <= end < 24 h: integer times on a carry grid + seeded random,
     and the fractional times the SCC reader produces (k*100100/3, k*100000/3)"""
     grid = [0, 999, 1000, 999999, US, 59 * US + 999999, 60 * US, 3599 * US + 999000, 3600 * US,
-            86399 * US + 999999, 8040000, 33366, 5 * US]
+            86399 * US + 999999, 8040000, 33366, 5 * US,
+            # millisecond values whose float images fall just below an integer, and the first minute after one hour
+            1001000, 1003000, 2002000, 66776264000, 3600 * US + 1, 3600 * US + 59 * US + 999000, 3661 * US, 7200 * US - 1000]
     out = []
     for i in range(n):
         k = rng.choice([1, 2, 3, 4])
